@@ -220,6 +220,18 @@ CMDLINES = [
      '--insulation-load=.004,2.5', '--skin-effect-conductivity=5e7', '--theta=0,30,3', '--phi=0,90,2'],
     ['-w', '5,0,0,0,0,0,8,.001', '--medium=0,0,0', '--excitation-pulse=1', '--trap-load=1,1e-5,1e-11', '--attach-load=1,3',
      '--near-field=1,1,1,1,1,1,2,2,1', '-f', '14'],
+    # several field options in one run, several loads, sources and transformations: everything that is kept in a set
+    # or a dict somewhere on the way to the output is iterated in these runs
+    ['-w', '5,0,0,0,0,0,8,.001', '--excitation-pulse=2', '--option=far-field', '--option=near-field', '--option=far-field-absolute',
+     '--near-field=1,1,1,1,1,1,2,1,1', '--ff-distance=100', '--theta=0,45,2', '--phi=0,90,2', '-f', '14'],
+    ['-w', '5,0,0,0,0,0,8,.001', '--medium=0,0,0', '--excitation-pulse=2', '--option=near-field', '--option=far-field',
+     '--near-field=1,1,1,1,1,1,1,2,1', '--theta=0,45,2', '--phi=0,90,2', '--frequency-steps=2', '--frequency-increment=1', '-f', '7'],
+    ['-w', '7,3,0,0,0,0,0,5,.001', '-w', '3,3,0,0,5,2,0,5,.001', '-w', '12,2,0,0,5,0,2,6,.001', '--excitation-pulse=1,7',
+     '--excitation-pulse=1,12', '--excitation-voltage=1', '--excitation-voltage=0.5j', '--load=5', '--load=7+1j', '--load=2-2j',
+     '--attach-load=3,all,3', '--attach-load=1,1,12', '--attach-load=2,all', '--attach-load=1,2,7',
+     '--skin-effect-conductivity=5e7,3', '--skin-effect-conductivity=3e7,12', '--insulation-load=.004,2.5,7',
+     '--geo-translate=2,1,0,0', '--geo-rotate=1,0,0,30,3', '--geo-scale=0.5', '--option=far-field-absolute', '--option=far-field',
+     '--ff-distance=50', '--theta=0,45,2', '--phi=0,90,2'],
 ]
 
 
@@ -302,7 +314,7 @@ def run(ck):
             dis.append(dict(gen_seed=seed, ops=[list(o) for o in ops], why=why))
     tmp = tempfile.mkdtemp(prefix='c14_')
     try:
-        for argv in CMDLINES[: (2 if ck.tier == 'quick' else 3)]:
+        for argv in (CMDLINES[:1] + CMDLINES[-3:] if ck.tier == 'quick' else CMDLINES):
             bad = two_process(argv, tmp)
             ck.case(('two-process', tuple(argv)), True)
             if bad:
